@@ -127,6 +127,12 @@ func (p *Proj) saysSo(c *cand) string {
 			return ""
 		}
 		id := strconv.Itoa(c.pan)
+		if c.pan == nilPayload {
+			if strings.Contains(p.full, "nil") {
+				return ""
+			}
+			return "that the panic value was nil"
+		}
 		if strings.Contains(p.full, "boom:"+id) || strings.Contains(p.full, "index out of range ["+id+"]") {
 			return ""
 		}
@@ -241,7 +247,7 @@ func oracle(c *Case, o *Obs) (string, string) {
 			what := map[string]string{"fail": " failed", "prefail": ": its state pre-handler failed", "postfail": ": its state post-handler failed"}[r.What]
 			eager = append(eager, cand{path: path, err: n.Err, pan: -1, what: r.Path + what})
 		case "panic":
-			eager = append(eager, cand{path: path, pan: n.ID, what: r.Path + " panicked"})
+			eager = append(eager, cand{path: path, pan: pay(n.ID), what: r.Path + " panicked"})
 		case "tool-fail":
 			tp := append([]string(nil), path[:len(path)-1]...)
 			if t.Err.Nested {
@@ -249,13 +255,13 @@ func oracle(c *Case, o *Obs) (string, string) {
 			}
 			eager = append(eager, cand{path: tp, err: t.Err, pan: -1, what: r.Path + " (tool) failed"})
 		case "tool-panic":
-			eager = append(eager, cand{path: path[:len(path)-1], pan: t.ID, what: r.Path + " (tool) panicked"})
+			eager = append(eager, cand{path: path[:len(path)-1], pan: pay(t.ID), what: r.Path + " (tool) panicked"})
 		case "item":
 			lazy = append(lazy, cand{err: n.Err, pan: -1, what: r.Path + " emitted an error item"})
 		case "convpanic":
-			lazy = append(lazy, cand{pan: n.ID, what: r.Path + " panics while its stream is read"})
+			lazy = append(lazy, cand{pan: pay(n.ID), what: r.Path + " panics while its stream is read"})
 		case "tool-convpanic":
-			lazy = append(lazy, cand{pan: t.ID, what: r.Path + " (tool) panics while its stream is forwarded"})
+			lazy = append(lazy, cand{pan: pay(t.ID), what: r.Path + " (tool) panics while its stream is forwarded"})
 		case "br-fail":
 			gp := path[:len(path)-1]
 			be := findGraph(c.G, gp).BrErr
@@ -269,7 +275,7 @@ func oracle(c *Case, o *Obs) (string, string) {
 			eager = append(eager, cand{path: bp, err: be, pan: -1, what: "the branch condition of graph /" + strings.Join(gp, "/") + " failed"})
 		case "br-panic":
 			gp := path[:len(path)-1]
-			eager = append(eager, cand{path: append([]string{}, gp...), pan: findGraph(c.G, gp).BrID, masked: true, what: "the branch condition of graph /" + strings.Join(gp, "/") + " panicked"})
+			eager = append(eager, cand{path: append([]string{}, gp...), pan: pay(findGraph(c.G, gp).BrID), masked: true, what: "the branch condition of graph /" + strings.Join(gp, "/") + " panicked"})
 		case "rerun":
 			rerun = true
 		case "cancel":
@@ -409,6 +415,12 @@ func tagsOf(c *Case, o *Obs) []string {
 						faults[n.Beh]++
 						faults["flav-"+n.Flav]++
 					}
+					if n.Beh == "item" || n.Beh == "convpanic" {
+						faults[fmt.Sprintf("pos-%s-%d", n.Beh, n.Pos)]++
+					}
+					if (n.Beh == "panic" || n.Beh == "convpanic") && nilPanic(n.ID) {
+						faults["err-nil-panic-value"]++
+					}
 					if n.Err != nil {
 						faults[fmt.Sprintf("err-%s-w%d", n.Err.Base[:1], n.Err.Wraps)]++
 						if n.Err.Nested {
@@ -424,6 +436,9 @@ func tagsOf(c *Case, o *Obs) []string {
 					for _, ts := range n.Tools {
 						if ts.Beh != "ok" {
 							faults["tool-"+ts.Beh]++
+						}
+						if (ts.Beh == "panic" || ts.Beh == "convpanic") && nilPanic(ts.ID) {
+							faults["err-nil-panic-value"]++
 						}
 					}
 				}
@@ -442,7 +457,7 @@ func tagsOf(c *Case, o *Obs) []string {
 	nf := 0
 	for k, v := range faults {
 		t = append(t, "has:"+k)
-		if !strings.HasPrefix(k, "mode-") && !strings.HasPrefix(k, "front-") && !strings.HasPrefix(k, "flav-") && !strings.HasPrefix(k, "err-") && k != "loop" && k != "explicit-max" && k != "end-branch" {
+		if !strings.HasPrefix(k, "mode-") && !strings.HasPrefix(k, "front-") && !strings.HasPrefix(k, "flav-") && !strings.HasPrefix(k, "err-") && !strings.HasPrefix(k, "pos-") && k != "loop" && k != "explicit-max" && k != "end-branch" {
 			nf += v
 		}
 	}
@@ -458,6 +473,9 @@ func tagsOf(c *Case, o *Obs) []string {
 	}
 	if c.RtMax > 0 {
 		t = append(t, "has:runtime-max-steps")
+	}
+	if c.Twice {
+		t = append(t, "has:second-call-on-the-same-runnable")
 	}
 	if o.P != nil {
 		switch {
